@@ -63,7 +63,12 @@ func pointWithSmallX(r *rand.Rand, kt opb.KeyType, zeros int) (*big.Int, *big.In
 }
 
 func randPayload(r *rand.Rand) []byte {
-	switch r.Intn(4) {
+	switch r.Intn(5) {
+	case 4:
+		if r.Intn(3) == 0 {
+			return []byte{} // "every payload": the empty one too
+		}
+		return []byte{0}
 	case 0:
 		return []byte(`{"hello":"world"}`)
 	case 1:
